@@ -29,13 +29,27 @@ type gscope struct {
 	vars   map[string]gvar
 	parent *gscope
 	isLoop bool // scope of a for loop: re-executed on every iteration
+	isFn   bool // scope of a function body
 	condAt int  // conditional nesting depth at which the scope was opened
 }
 
+// lookup resolves a name statically. A let name that is reserved but not bound yet is skipped
+// (the right-hand sides see the outer binding) - except from inside a function body created in
+// such a right-hand side: that closure captures the let scope and, when called later, finds the
+// let's binding, so for its body the name has no single static meaning and is unavailable.
 func (s *gscope) lookup(name string) (gvar, bool) {
+	crossedFn := false
 	for c := s; c != nil; c = c.parent {
-		if v, ok := c.vars[name]; ok && !v.hidden {
-			return v, true
+		if v, ok := c.vars[name]; ok {
+			if !v.hidden {
+				return v, true
+			}
+			if crossedFn {
+				return gvar{}, false
+			}
+		}
+		if c.isFn {
+			crossedFn = true
 		}
 	}
 	return gvar{}, false
@@ -44,15 +58,25 @@ func (s *gscope) lookup(name string) (gvar, bool) {
 func (s *gscope) visible(typ string) []string {
 	seen := map[string]bool{}
 	var out []string
+	crossedFn := false
 	for c := s; c != nil; c = c.parent {
 		for n, v := range c.vars {
-			if seen[n] || v.hidden {
+			if seen[n] {
+				continue
+			}
+			if v.hidden {
+				if crossedFn {
+					seen[n] = true // see lookup
+				}
 				continue
 			}
 			seen[n] = true
 			if v.typ == typ {
 				out = append(out, n)
 			}
+		}
+		if c.isFn {
+			crossedFn = true
 		}
 	}
 	sortStrings(out)
@@ -672,6 +696,7 @@ func (g *gen) fnLiteral(ptypes []string, ret string) *Node {
 	savedLoops := g.loops
 	g.loops = nil
 	g.push()
+	g.scope.isFn = true
 	for _, pt := range ptypes {
 		nm := g.freshName(pt, g.cfg.VarNames)
 		for contains(n.Names, nm) {
@@ -960,6 +985,7 @@ func (g *gen) defnRet(d int, forceRet string) *Node {
 	savedLoops := g.loops
 	g.loops = nil
 	g.push()
+	g.scope.isFn = true
 	for i, pt := range sig.Params {
 		pn := g.freshName(pt, g.cfg.VarNames)
 		for contains(n.Names, pn) {
